@@ -3,3 +3,6 @@ import Jwt.AlgType
 import Jwt.Generated.Base64Tables
 import Jwt.Generated.AlgTables
 import Jwt.Base64
+import Jwt.Base64Spec
+import Jwt.StrCmp
+import Jwt.Alg
